@@ -184,7 +184,7 @@ func (db *DB) FindInBatches(dest interface{}, batchSize int, fc func(tx *DB, bat
 
 	// conditions joined by OR stay one unit: the primary key cursor of the later batches applies to all of them
 	if c, ok := tx.Statement.Clauses["WHERE"]; ok {
-		if where, ok := c.Expression.(clause.Where); ok && len(where.Exprs) > 1 {
+		if where, ok := c.Expression.(clause.Where); ok {
 			for _, expr := range where.Exprs {
 				if _, ok := expr.(clause.OrConditions); ok {
 					where.Exprs = []clause.Expression{clause.And(where.Exprs...)}
